@@ -27,10 +27,10 @@ CLAIMED["C03"] = ("Deductive proof of control-flow contracts: loop-exit conditio
   "Partial: what a body does is abstract (executeOne is used through its contract); iteration counts, forall operands, bind, name-lookup order and ifelse branch selection are not yet under contract (see evidence.not_covered). Trusted: govc, go/ssa, solvers.",
   "contract-based deductive verification: weakest-precondition style VCs over go/ssa of /repo, discharged by z3 4.8.12 / z3 5.1.0 / cvc5 1.0",
   "DESIGN.md §3 C03")
-CLAIMED["C07"] = ("Deductive proof of contracts on the CIDInit procedure set: each of the six end* operators moves exactly the pending block (operands unchanged: same string references, same destinations, in order) to the end of its own table, leaves all earlier entries of every table untouched and changes nothing on error; begin* operators reject counts outside 0..100 without storing anything; the seven endcmap comparators order by source code (code-space ranges by length, then code); block buffers never alias finished tables.",
-  "Partial: endcodespacerange entries, usecmap, the range-mapping rejection clauses (low > high) and ReadCMap's choice of the returned dictionary are not yet under functional contract; sort.Slice/bytes.Compare are trusted (see evidence). Trusted: govc, go/ssa, solvers.",
+CLAIMED["C07"] = ("Deductive proof of contracts on the CIDInit procedure set: each of the seven end* operators (code-space ranges, cid/bf/notdef single and range mappings) moves exactly the pending block (operands unchanged: same string references, same destinations, in order) to the end of its own table, leaves all earlier entries and all other tables unchanged, and changes no table on any error; a stored range has bounds of equal length with low <= high (bytewise) and a destination of the type its kind allows; begin* operators refuse negative counts and counts above 100 and store nothing then; usecmap records the name; the table comparators used by endcmap order by source code (code-space ranges by length first).",
+  "Partial: that endcmap leaves the tables sorted rests on the trusted sort.Slice contract (only the comparators are verified); ReadCMap's choice of the returned dictionary is covered for determinism only (C17); dictionary entries such as CMapName/WMode are ordinary def operators (C02). bytes.Compare is an uninterpreted function of the bytes (see evidence). Trusted: govc, go/ssa, solvers.",
   "contract-based deductive verification: weakest-precondition style VCs over go/ssa of /repo, discharged by z3 4.8.12 / z3 5.1.0 / cvc5 1.0",
-  "DESIGN.md §3 C07")
+  "DESIGN.md A.4 C07")
 CLAIMED["C20"] = ("Deductive proof, for all 2^32 integers, that appendInt writes the Type 1 number format of the proper range (one byte for -107..107, two bytes for +-108..1131, five bytes otherwise) and that the bytes decode to the same integer under the Type 1 book's number formats (ghost decoder specT1Int); proof that the real charstring decoder's number branches implement the same formats (per-iteration step clause of the decoding loop: pushes float64(specT1Int(code)) and advances by its length, rest of the stack unchanged).",
   "Partial: the fraction clauses (p/q within 1/214, no drift along a path) are not yet under contract (see evidence.not_covered); float64 arithmetic on the small integers involved is treated as exact real arithmetic. Trusted: govc, go/ssa, solvers.",
   T0, "DESIGN.md §3 C20")
@@ -40,7 +40,7 @@ CLAIMED["C05"] = ("Deductive proof of the eexec cipher step of the scanner again
 CLAIMED["C06"] = ("Deductive proof that charstring decryption computes, for every lenIV n with 0 <= n <= len, plain[k] = cipher[n+k] xor (R_{n+k} >> 8) with R_0 = 4330 and the Type 1 recurrence (recursive specification function specCSR, SMT define-fun-rec), returns nil for n outside the range; plus the number formats of the charstring decoder (shared with C20).",
   "Partial: path/hint/flex/seac command semantics of the decoder and the extraction of dictionaries by type1.Read are not under functional contract (see evidence.not_covered). Trusted: govc, go/ssa, solvers; recursive spec functions assumed terminating.", T, "DESIGN.md §3 C06")
 CLAIMED["C08"] = ("Deductive proof of the writer's format-defining pieces: charstring obfuscation is the Type 1 encryption (key 4330, recurrence on the cipher byte) of iv ++ plain; the eexec stream writer encrypts each buffered byte by the same step and keeps its state; hex and eexec writers count what they accept; counting writer adds exactly n; number and operator encodings (shared with C20).",
-  "Partial: the template text, PFB framing, the lead-byte search and the encoding shortcut are not under functional contract (see evidence.not_covered). Trusted: govc, go/ssa, solvers.", T, "DESIGN.md §3 C08")
+  "Partial: the template text, PFB framing and the lead-byte search are not under functional contract; the StandardEncoding shortcut condition is (after the fix recorded in known_findings.json) (see evidence.not_covered). Trusted: govc, go/ssa, solvers.", T, "DESIGN.md §3 C08")
 CLAIMED["C10"] = ("Deductive proof of the implicit safety obligations (no panic) on every function of the Type 1 and AFM writers under the writable-domain invariant (fontWF, glyph commands well-formed, kerning pairs non-nil), and proof that type1.Read establishes that invariant for every font it returns.",
   "Partial: 'writing succeeds without error' and the re-read equalities go through text/template and the interpreter and are not expressible (see evidence.not_covered); names made of non-regular characters are outside the proved domain. Trusted: govc, go/ssa, solvers, text/template.", T, "DESIGN.md §3 C10")
 CLAIMED["C13"] = ("Deductive proof with ghost state: (readers) the scanner's first read error is sticky and every short read surfaces as a non-nil error through refill, readByteRaw, readByte, PeekN; (writers) ghost flag wfault ('some write to an underlying io.Writer failed'): every writer function - hex, eexec, counting writers, Font.Write in all formats, Font.WritePDF, afm Metrics.Write - returns a non-nil error whenever a write failed during the call.",
